@@ -14,6 +14,9 @@ use std::borrow::Cow;
 use ua_parser::device::Flag;
 
 fn main() {
+    // verification hook: `cfg(kani)` is only ever set by `cargo kani`.
+    println!("cargo::rustc-check-cfg=cfg(kani)");
+
     read_grok_patterns();
 
     #[cfg(feature = "stdlib-base")]
